@@ -272,6 +272,9 @@ func init() {
 			pc.Cfg.Slab = rapid.SampledFrom([]uint32{256, 256, 512, 1024}).Draw(t, "slab")
 			pc.Cfg.Keys = rapid.SampledFrom([]int{16, 64, 300}).Draw(t, "keys")
 			pc.Procs = rapid.SampledFrom([]int{1, 2, 4, 16}).Draw(t, "procs")
+			if rapid.Bool().Draw(t, "hipgroups") {
+				pc.Cfg.HipGroups = 64 // default-digester collisions: the pooled digesters compute their BLAKE3 levels
+			}
 			pc.Roots = []RootSpec{{K: "arr", Addr: 1, TI: 1}, {K: "map", Addr: 2, TI: 2}}
 			pc.Fault = rapid.SampledFrom([]int{0, 0, 1, 2}).Draw(t, "fault")
 			g := rapid.SampledFrom([]int{1, 2, 4, 8, 16}).Draw(t, "g")
